@@ -36,7 +36,7 @@ FACTORS = dict(
     save_every=[None, 1, 3],
     d=[1, 2, 4],
     N=["default", 16, 64],
-    target=["gauss", "bimodal", "expedge"],
+    target=["gauss", "bimodal", "expedge", "minor_mode"],
 )
 NAMES = list(FACTORS)
 
@@ -72,6 +72,10 @@ def row_to_case(row, seed):
         tgt = T.spec_gauss(d=d, mu=0.2, sig=0.15)
     elif kind == "bimodal":
         tgt = T.spec_bimodal(d=d)
+    elif kind == "minor_mode":
+        # narrow dominant mode + broad 2% mode: clusters with very skewed weights
+        tgt = dict(d=d, lo=[-1.0] * d, hi=[1.0] * d, comps=[dict(w=0.02, factors=[["gauss", -0.5, 0.2]] + [["gauss", 0.0, 0.2]] * (d - 1)),
+                                                            dict(w=0.98, factors=[["gauss", 0.4, 0.02]] + [["gauss", 0.1, 0.02]] * (d - 1))])
     else:
         tgt = T.spec_expedge(d=d)
     tgt["kind"] = kind
